@@ -21,13 +21,45 @@ def ops_with_dump(rng, n, **kw):
     return ops
 
 
+def huge_scenario(rng):
+    """blocks and totals beyond 4 GiB: sizes in units of 1 GiB / 256 MiB over reserved, untouched address space"""
+    unit = rng.choice([1 << 30, 1 << 30, 1 << 28])
+    level = rng.choice([1, 1, 2])
+    lines = ["UNIT %d" % unit, "TRACER %d %d 0" % (level, rng.choice([0, 8]))]
+    sizes = [1, 2, 3, 4, 5, 8, 9, 16, 17] if unit == 1 << 30 else [1, 15, 16, 17, 31, 32, 33, 48]
+    ops, live = [], set()
+    for _ in range(rng.randint(6, 16)):
+        s = rng.randrange(6)
+        r = rng.random()
+        if s not in live and r < 0.7:
+            ops.append("A%d:%d" % (s, rng.choice(sizes)))
+            live.add(s)
+        elif s in live and r < 0.5:
+            ops.append("R%d:%d" % (s, rng.choice(sizes)))
+        elif s in live:
+            ops.append("F%d" % s)
+            live.discard(s)
+        if rng.random() < 0.3:
+            ops.append(rng.choice(["Q", "D"]))
+    lines.append("MAIN " + " ".join(ops + ["Q"]))
+    return lines
+
+
+def deep(rng, ops):
+    """some operations performed from 300 stack frames further down (full-depth stack traces)"""
+    return [("z" + o) if o[0] in "ACR" and rng.random() < 0.4 else o for o in ops]
+
+
 def scenario(rng):
+    if rng.random() < 0.06:
+        return huge_scenario(rng)
     level = rng.choice([0, 1, 1, 2, 2])
-    frames = rng.choice([0, 1, 8, 200]) if level == 2 else rng.choice([0, 8])
+    frames = rng.choice([0, 1, 8, 126, 127, 128, 200]) if level == 2 else rng.choice([0, 8])
     # flavour of the traced allocator: complete, or lacking realloc and/or calloc (what a user-written allocator looks like)
     lines = ["TRACER %d %d %d" % (level, frames, rng.choice([0, 0, 1, 2, 3]))]
     if rng.random() < 0.45:
-        lines.append("MAIN " + " ".join(ops_with_dump(rng, rng.randint(8, 34))))
+        ops = ops_with_dump(rng, rng.randint(8, 34))
+        lines.append("MAIN " + " ".join(deep(rng, ops) if level == 2 and frames >= 100 else ops))
         return lines
     lines.append("MAIN " + " ".join(ops_with_dump(rng, rng.randint(0, 8))))
     for k in range(1, rng.randint(2, 3) + 1):
@@ -40,6 +72,14 @@ CORE = [
     ["TRACER 1 0", "THREAD 1 A0:8 R0:16 F0", "THREAD 2 A0:4 F0 A0:2"],
     ["TRACER 2 4", "MAIN A0:10", "THREAD 1 A0:8 F0", "THREAD 2 A0:8 R0:100 R0:0", "POST D Q"],
     ["TRACER 1 0", "THREAD 1 A0:8 F0 A0:8 F0", "THREAD 2 A0:8 F0", "THREAD 3 A0:8 R0:8"],
+]
+# sequential, deterministic: stack traces of the maximum depth taken from deep call stacks; totals beyond 4 GiB
+EXTRA = [
+    ["TRACER 2 128 0", "MAIN zA0:100 zC1:3x7 zR0:300 Q D zA2:9 F0 zR1:0 F2 Q"],
+    ["TRACER 2 1000 0", "MAIN zA0:64 zA1:64 Q zR1:10 D F0 F1 Q"],
+    ["TRACER 2 127 0", "MAIN zA0:100 zR0:5000 F0 Q"],
+    ["UNIT 1073741824", "TRACER 1 0 0", "MAIN A0:4 A1:1 Q R0:1 Q R1:9 Q F1 Q A2:3 F0 F2 Q"],
+    ["UNIT 1073741824", "TRACER 2 8 0", "MAIN A0:5 Q D R0:2 A1:4 Q F0 F1 Q"],
 ]
 
 
@@ -54,6 +94,8 @@ def run(ctx):
         "byte total and count are compared at quiescent points (no call in progress on another thread); during "
         "concurrent phases only memory behaviour (contents, zeroing) is checked",
         "leak check by LeakSanitizer after the tracer is destroyed",
+        "blocks of gigabytes are reserved address space that nobody touches (no content checks there); their sizes and the "
+        "totals reach the model divided by the unit (1 GiB / 256 MiB)",
     ]
     ctx.mc(SPEC_DIR, "MCMemTrace", "MC.cfg", timeout=900, xmx="4g",
            required_actions=["MemTrace!Next"] if False else [])
@@ -62,6 +104,8 @@ def run(ctx):
     budget, bound = (200, 2) if not thorough else (3000, 3)
     for sc in CORE:
         blocks.append(("dfs %d %d" % (budget, bound), sc))
+    for sc in EXTRA:
+        blocks.append(("fixed -", sc))
     nrand = 600 if not thorough else 12000
     for _ in range(nrand):
         sc = scenario(rng)
